@@ -2403,6 +2403,23 @@ impl<'a> VisitMut for AnchorPass<'a> {
         }
         visit_mut::visit_arm_mut(self, a);
     }
+    fn visit_expr_while_mut(&mut self, w: &mut syn::ExprWhile) {
+        visit_mut::visit_expr_while_mut(self, w);
+        // `loop_end` n: the last thing in the body of rewritten loop n (`while __i<n> < ..`): where the invariant has to be re-established
+        let cond = w.cond.to_token_stream().to_string();
+        if let Some(rest) = cond.strip_prefix("__i") {
+            let digits: String = rest.chars().take_while(|c| c.is_ascii_digit()).collect();
+            if let Ok(n) = digits.parse::<u64>() {
+                if self.cfg.anchors.iter().any(|(k, _, m)| k == "loop_end" && *m == n) {
+                    if let Some(syn::Stmt::Expr(_, semi @ None)) = w.body.stmts.last_mut() {
+                        *semi = Some(Default::default());
+                    }
+                    w.body.stmts.push(anchor_stmt("loop_end", "l", n));
+                    self.placed.push(format!("loop_end_l_{}", n));
+                }
+            }
+        }
+    }
     fn visit_expr_if_mut(&mut self, i: &mut syn::ExprIf) {
         if let syn::Expr::Let(_) = &*i.cond {
             let n = self.iflets;
@@ -2928,6 +2945,7 @@ pub fn apply_to_fn(
                 "after_armcall" => format!("after_armcall_{}_{}", n, m),
                 "before_return" => format!("before_return_r_{}", m),
                 "iflet_head" => format!("iflet_head_b_{}", m),
+                "loop_end" => format!("loop_end_l_{}", m),
                 "entry" => continue,
                 "before_tail" => continue,
                 "at_end" => continue,
